@@ -15,7 +15,7 @@ META = {
                  "symbolic: 0..(positional params + 2) positional arguments, each named parameter and 2 extra names passed by keyword "
                  "or not (presence booleans), unbounded symbolic int payloads; per-parameter unmarshallers replaced by tagging stubs "
                  "(routing), plus one end-to-end variant per row with the real unmarshallers for int/str/float/bool/list[int] annotations "
-                 "and an unannotated parameter, and one with subscripted container annotations given containers of unconverted members; functions, methods, callable instances, classes on 6 rows; wrap metadata; 20 s per condition",
+                 "and an unannotated parameter, and one with subscripted container annotations given containers of unconverted members; functions, methods, callable instances, classes on 6 rows; decorated bound methods and a subclass (own __init__) of an already wrapped class on 3 rows end-to-end; wrap metadata; 20 s per condition",
         "thorough": "the wide variant on all 32 rows; defaults on every row; 90 s per condition",
     },
     "assumptions": ["inspect.Signature.bind is the oracle for acceptance and for the parameter each argument binds to"],
@@ -74,6 +74,20 @@ def make_fn(row, wide=False, defaults=False, annotate=None, flavour="function"):
         exec(src, ns)  # noqa: S102
         fn = ns["K"]().f
         return fn, inspect.signature(fn), names
+    if flavour == "decorated_method":  # a bound method whose function carries a functools.wraps decorator
+        src = ("import functools\ndef deco(fn):\n    @functools.wraps(fn)\n    def w(*a, **k):\n        return fn(*a, **k)\n    return w\n"
+               f"class K:\n    @deco\n    def f(self, {', '.join(parts)}):\n        return {ret}\n")
+        exec(src, ns)  # noqa: S102
+        fn = ns["K"]().f
+        return fn, inspect.signature(fn), names
+    if flavour == "subclass":  # a class whose base class was wrapped before; it overrides __init__
+        src = ("class Base:\n    def __init__(self, q: int = 0):\n        self.q = q\n"
+               f"class K(Base):\n    def __init__(self, {', '.join(parts)}):\n        self.got = {ret}\n")
+        exec(src, ns)  # noqa: S102
+        from typelib import binding as _b
+
+        _b.wrap(ns["Base"])
+        return ns["K"], inspect.signature(ns["K"]), names
     if flavour == "callable":
         src = f"class K:\n    def __call__(self, {', '.join(parts)}):\n        return {ret}\n"
         exec(src, ns)  # noqa: S102
@@ -191,12 +205,13 @@ ANN_CONTAINERS = {"a": "list[int]", "b": "dict[str, int]", "b2": "tuple[int, str
 CONTAINER_ARGS = [["1", 2], {"k": ["3"]}]
 
 
-def make_e2e(row, timeout, unannotated=None, containers=False):
+def make_e2e(row, timeout, unannotated=None, containers=False, flavour="function"):
     """Real unmarshallers, pairwise-distinguishable annotations; `unannotated` names one parameter left bare;
     `containers`: subscripted annotations and arguments that are already containers of unconverted members."""
     rname = "".join(k for k, on in zip(KINDS, row) if on) or "none"
     ann = {k: v for k, v in (ANN_CONTAINERS if containers else ANN).items() if k != unannotated}
-    cname = f"e2e/{rname}" + (f"/bare_{unannotated}" if unannotated else "") + ("/containers" if containers else "")
+    cname = f"e2e/{rname}" + (f"/bare_{unannotated}" if unannotated else "") + ("/containers" if containers else "") + \
+            ("" if flavour == "function" else "/" + flavour)
 
     def argval(i):
         return CONTAINER_ARGS[i % 2] if containers else i % 3
@@ -211,8 +226,8 @@ def make_e2e(row, timeout, unannotated=None, containers=False):
         from typelib import binding, unmarshals
 
         with NoTracing():
-            fn, sig, names = make_fn(row, False, False, annotate=ann)
-            bound = binding.bind(fn)
+            fn, sig, names = make_fn(row, False, False, annotate=ann, flavour=flavour)
+            bound = binding.wrap(fn) if flavour == "subclass" else binding.bind(fn)
             UM = {name: unmarshals.unmarshaller(eval(ann[name])) for name in names if name in ann}  # noqa: S307
         n = p["n"] % (maxpos + 1)
         pos = []
@@ -255,7 +270,7 @@ def make_e2e(row, timeout, unannotated=None, containers=False):
             return None if not ok else ("conversion_failure_swallowed", rname, _d(pos, kw, ret))
         if not ok:
             return ("accepted_call_raised:" + type(ret).__name__, rname, _d(pos, kw, ret))
-        got = dict(ret)
+        got = dict(ret.got if flavour == "subclass" else ret)
         for name in exp:
             g, w = got[name], exp[name]
             same = type(g) is type(w) and g == w
@@ -320,5 +335,8 @@ def conditions(tier, seed):
                       ((True, True, False, False, False), "a"), ((False, True, True, False, True), "args")]:
         out.append(make_e2e(row, to, unannotated=bare))
         out.append(make_e2e(row, 3 * to, containers=True))
+    for row in [(True, True, True, True, True), (False, True, False, True, False), (False, True, True, False, False)]:
+        out.append(make_e2e(row, to, flavour="decorated_method"))
+        out.append(make_e2e(row, to, flavour="subclass"))
     out.append(make_wrap_meta(to))
     return out
